@@ -10,6 +10,9 @@ After construction and after every rescaling call all sub-oracles are evaluated 
                    Gauss-Legendre integral of the reported Jacobian equals the change of the map (error
                    estimated from the quadrature and from the measured rounding noise of the map alone)
   slope-centre     Grid3Scales: d z/d chi at chi = 0 equals wallThickness / ratioPointsWall
+  input-type       the maps and the Jacobian at compact 0 given as a Python int, 0-d / 1-d integer array (int64, int32)
+                   or mixed list equal those at float 0.0; compactify of integer-typed physical coordinates
+                   equals compactify of the same points as floats
   inverse-map      compactify(decompactify(x)) = x and decompactify(compactify(X)) = X on the same object
   cache            cached node arrays equal the maps evaluated at the compact nodes; compact nodes are
                    the Lobatto / uniform points; endpoints=True variants are padded with +-inf / inf
@@ -381,6 +384,55 @@ def check_state(st_: State, v: Verdict, tag: str):
         v.info["slope_err/bound"] = max(v.info.get("slope_err/bound", 0.0), abs(j0 - want) / tol)
         if not abs(j0 - want) <= tol:
             fail("slope-centre", gk, f"dz/dchi(0) = {j0!r}, wallThickness/ratioPointsWall = {want!r}")
+
+    # ---- same point, other input type ---------------------------------------------------------
+    # A coordinate given as a Python int, a 0-d / 1-d integer array or a list is the same mathematical point as the
+    # float; maps and Jacobians must agree there (compact 0 is the only integer inside (-1, 1); physical
+    # coordinates take any integer).
+    if "input-type" not in failed:
+        v.checked("input-type")
+        sc_origin = p["L"] if gk == "Grid" else abs(p["center"]) + p["tailIn"] + p["tailOut"] + p["L"] / p["r"]
+        sc_origin += p["T"]
+        f0 = np.array(0.0)
+        kinds = (("int", (0, 0, 0)), ("0-d int", (np.array(0), np.array(0), np.array(0))),
+                 ("int array", (np.zeros(3, dtype=int),) * 3), ("int32 array", (np.zeros(2, dtype=np.int32),) * 3),
+                 ("list", ([0.0, 0], [0, 0.0], [0, 0])))
+        msg = None
+        with np.errstate(all="ignore"):
+            for fn in ("decompactify", "compactificationDerivatives"):
+                ref = [float(np.asarray(a)) for a in getattr(g, fn)(f0, f0, f0)]
+                for nm, args in kinds:
+                    try:
+                        if nm == "list":
+                            args = tuple(np.asarray(a) for a in args)
+                        got = getattr(g, fn)(*args)
+                    except (TypeError, ValueError, AttributeError) as e:  # not accepted: an outcome, not a value
+                        v.label(f"input-type:{fn}:{nm}:refused:{type(e).__name__}")
+                        continue
+                    for comp, a, b in zip(DIRS, got, ref):
+                        a = np.asarray(a, dtype=float).ravel()
+                        if a.size == 0 or not np.all(np.abs(a - b) <= 64 * EPS * (abs(b) + sc_origin)):
+                            msg = (f"{fn}[{comp}] at compact 0 given as {nm}: {a.tolist()[:3]!r}, given as float: {b!r}")
+                            break
+                    if msg:
+                        break
+                if msg:
+                    break
+            if msg is None:
+                # physical coordinates: integer-valued points given with an integer dtype
+                scL = max(round(p["L"]), 1)
+                scT = max(round(p["T"]), 1)
+                zi = np.array([-3, -1, 0, 2, 7], dtype=np.int64) * scL
+                pzi = np.array([-2, 0, 1, 5, 40], dtype=np.int64) * scT
+                ppi = np.array([0, 1, 3, 10, 90], dtype=np.int64) * scT
+                ref = [np.asarray(a, dtype=float) for a in g.compactify(zi.astype(float), pzi.astype(float), ppi.astype(float))]
+                got = [np.asarray(a, dtype=float) for a in g.compactify(zi, pzi, ppi)]
+                for comp, a, b in zip(DIRS, got, ref):
+                    if a.shape != b.shape or not np.all(np.abs(a - b) <= 1e-13):
+                        msg = f"compactify[{comp}] of integer-typed physical coordinates {a.tolist()!r} vs float-typed {b.tolist()!r}"
+                        break
+        if msg:
+            fail("input-type", gk, msg)
 
     # ---- inverse map ---------------------------------------------------------------------
     zeros = np.zeros_like(x)
